@@ -215,7 +215,7 @@ def pContent : M (Option Schema) := do
     if ct ≠ s "application/json" then fail "unexpected media type"
     else if acc.isSome then fail "two media types"
     else
-      let sch ← pObj (none : Option Schema) fun k a => do
+      let sch ← pObj (none : Option Schema) fun k _ => do
         if k = s "schema" then do let t ← pSchema; pure (some t)
         else fail s!"unknown media type member {String.ofList k}"
       match sch with
